@@ -6,4 +6,5 @@ def main : IO UInt32 :=
   runDriver (fun family params lines =>
     match family with
     | "c01" => C01.check params lines
+    | "c01d" => C01.check params lines
     | _ => { bad := [s!"unknown family {family}"] })
